@@ -1,6 +1,7 @@
 package main
 
 import (
+	"bytes"
 	"encoding/hex"
 	"encoding/json"
 	"fmt"
@@ -9,6 +10,7 @@ import (
 	"sort"
 	"strconv"
 	"strings"
+	"time"
 
 	"github.com/fido-device-onboard/go-fdo/cbor"
 	"github.com/fido-device-onboard/go-fdo/protocol"
@@ -123,23 +125,23 @@ var shapeOf = map[string]string{}
 
 // per-variable valid/near-valid values that go into the mid and core palettes.
 var c20Mid = map[int][]string{
-	0:  {"", "f5", "00"},
-	1:  {"", "f5", "00"},
-	2:  {"", "4401020304", "44c0000201", "43010203", "5020010db8000000000000000000000001", "5000000000000000000000ffff01020304", "51" + strings.Repeat("22", 17), "40", "f6", "8401020304", "840102f504", "440102030400", "6461626364", "05", "440102"},
-	3:  {"", "1901bb", "191f90", "00", "1850", "19ffff", "1a00010000", "1901bb00", "20", "6161", "e1", "1c", "190002"},
-	4:  {"", "1901bb", "191f90", "00", "19ffff", "1a00010000", "1901bb00", "6161"},
-	5:  {"", "6161", "6162", "6b6578616d706c652e636f6d", "63613a62", "60", "4161", "616100", "6161f6", "6261", "01", "f6", "7f", "78016b"},
-	6:  {"", "822f4401020304", "8206f6", "822f83010203", "822f440102030400", "812f", "01", "8261614101"},
-	7:  {"", "822f4401020304", "82382a450102030405", "822f440102030400", "832f410100", "6161"},
-	8:  {"", "f5", "f4"},
-	9:  {"", "6161", "6162", "60", "4161", "616100", "01", "f6"},
-	10: {"", "6161", "6162", "616100", "05", "7f"},
-	11: {"", "00", "03", "09", "0a", "0d", "13", "14", "15", "16", "18ff", "190100", "20", "e1", "1c", "0100", "1801", "6161"},
-	12: {"", "00", "01", "02", "03", "04", "05", "06", "07", "18ff", "190100", "20", "e1", "e2", "1c", "0100", "0202", "1801", "190002", "6161", "f6"},
-	13: {"", "00", "0a", "0a0a", "1affffffff", "1b0000000100000000", "1b0000000225c17d04", "1b0000000225c17d05", "1b7fffffffffffffff", "1b8000000000000000", "20", "3b7fffffffffffffff", "e1", "6161", "f6", "1801"},
-	14: {"", "f5", "00"},
-	15: {"", "8163616263", "826361626301", "83657573655f61690367313431353932", "8143616263", "8101", "82f601", "80", "81", "8163616263ff", "9c63616263", "01", "6161", "f6", strings.Repeat("81", 65) + "00", "9bffffffffffffffff6161"},
-	16: {"", "01"},
+	0:   {"", "f5", "00"},
+	1:   {"", "f5", "00"},
+	2:   {"", "4401020304", "44c0000201", "43010203", "5020010db8000000000000000000000001", "5000000000000000000000ffff01020304", "51" + strings.Repeat("22", 17), "40", "f6", "8401020304", "840102f504", "440102030400", "6461626364", "05", "440102"},
+	3:   {"", "1901bb", "191f90", "00", "1850", "19ffff", "1a00010000", "1901bb00", "20", "6161", "e1", "1c", "190002"},
+	4:   {"", "1901bb", "191f90", "00", "19ffff", "1a00010000", "1901bb00", "6161"},
+	5:   {"", "6161", "6162", "6b6578616d706c652e636f6d", "63613a62", "60", "4161", "616100", "6161f6", "6261", "01", "f6", "7f", "78016b"},
+	6:   {"", "822f4401020304", "8206f6", "822f83010203", "822f440102030400", "812f", "01", "8261614101"},
+	7:   {"", "822f4401020304", "82382a450102030405", "822f440102030400", "832f410100", "6161"},
+	8:   {"", "f5", "f4"},
+	9:   {"", "6161", "6162", "60", "4161", "616100", "01", "f6"},
+	10:  {"", "6161", "6162", "616100", "05", "7f"},
+	11:  {"", "00", "03", "09", "0a", "0d", "13", "14", "15", "16", "18ff", "190100", "20", "e1", "1c", "0100", "1801", "6161"},
+	12:  {"", "00", "01", "02", "03", "04", "05", "06", "07", "18ff", "190100", "20", "e1", "e2", "1c", "0100", "0202", "1801", "190002", "6161", "f6"},
+	13:  {"", "00", "0a", "0a0a", "1affffffff", "1b0000000100000000", "1b0000000225c17d04", "1b0000000225c17d05", "1b7fffffffffffffff", "1b8000000000000000", "20", "3b7fffffffffffffff", "e1", "6161", "f6", "1801"},
+	14:  {"", "f5", "00"},
+	15:  {"", "8163616263", "826361626301", "83657573655f61690367313431353932", "8143616263", "8101", "82f601", "80", "81", "8163616263ff", "9c63616263", "01", "6161", "f6", strings.Repeat("81", 65) + "00", "9bffffffffffffffff6161"},
+	16:  {"", "01"},
 	200: {"6161"},
 }
 
@@ -407,9 +409,24 @@ func governs(field string, v int) bool {
 	return true
 }
 
-// sigFor names a failing class: the differing fields and, of the instructions that govern those
-// fields, (a) those with a malformed value that demonstrably influences the result, else
-// (b) the variables that occur more than once, else (c) all of them.
+// causeClass is the input class of an instruction as used in signatures; for RVIPAddress
+// every value that fails to decode behaves alike except arrays (elements are appended to
+// the target as they are decoded) and trailing bytes (the complete item is stored first).
+func causeClass(in rvIn) string {
+	sh := shape(in.hex)
+	if in.v == int(protocol.RVIPAddress) && sh != "array" && sh != "trailing" {
+		if rej, typed := libRejects(in); typed && rej {
+			sh = "undecodable"
+		}
+	}
+	return rvName(in.v) + "-" + sh
+}
+
+// sigFor names the failing class by ONE cause: of the instructions that govern the differing
+// fields, (a) one with a malformed value that demonstrably influences the result, else (b)
+// one with a malformed value, else (c) a variable that occurs more than once, else (d) the
+// differing fields with the variables involved.  Causes are ranked dns < ip < delaysec < others so that a list with several
+// defects is filed under a stable one.
 func sigFor(fields string, list []rvIn, used map[int]bool) string {
 	gov := func(v int) bool {
 		for _, f := range strings.Split(fields, "+") {
@@ -419,10 +436,40 @@ func sigFor(fields string, list []rvIn, used map[int]bool) string {
 		}
 		return false
 	}
+	rank := func(c string) string {
+		switch {
+		case strings.HasPrefix(c, "dns-"):
+			return "0" + c
+		case strings.HasPrefix(c, "ip-"):
+			return "1" + c
+		case strings.HasPrefix(c, "delaysec-"):
+			return "2" + c
+		}
+		return "3" + c
+	}
+	pick := func(set map[string]bool) string {
+		best := ""
+		for c := range set {
+			if best == "" || rank(c) < rank(best) {
+				best = c
+			}
+		}
+		return best
+	}
 	set := map[string]bool{}
 	for k, in := range list {
 		if used[k] && gov(in.v) {
-			set[instrClass(in)] = true
+			set[causeClass(in)] = true
+		}
+	}
+	if len(set) == 0 {
+		for _, in := range list {
+			// only classes whose rejected value can leak into the result at all
+			leaky := in.v == int(protocol.RVIPAddress) || in.v == int(protocol.RVDelaysec) ||
+				(in.v == int(protocol.RVDns) && shape(in.hex) == "trailing")
+			if rej, typed := libRejects(in); typed && rej && gov(in.v) && leaky {
+				set[causeClass(in)] = true
+			}
 		}
 	}
 	if len(set) == 0 {
@@ -437,21 +484,145 @@ func sigFor(fields string, list []rvIn, used map[int]bool) string {
 		}
 	}
 	if len(set) == 0 {
+		// no malformed value and no duplicate to blame: name the fields and the variables involved
+		vars := map[string]bool{}
 		for _, in := range list {
 			if gov(in.v) {
-				set[instrClass(in)] = true
+				vars[rvName(in.v)] = true
 			}
 		}
+		var vs []string
+		for v := range vars {
+			vs = append(vs, v)
+		}
+		sort.Strings(vs)
+		return fields + ":" + strings.Join(vs, "+")
 	}
-	var cs []string
-	for c := range set {
-		cs = append(cs, c)
+	return pick(set)
+}
+
+// ---------------------------------------------------------------------------------------
+// typed decoders and ArrayShift, directly (the layer the model and the reference share)
+
+// decProbe runs cbor.Unmarshal into a target of the named type twice with different
+// sentinels and reports "<value the target holds if it was written, else -> ok|err".
+func decProbe(ty string, b []byte) (reply string, panicked any) {
+	defer func() {
+		if p := recover(); p != nil {
+			panicked = p
+			reply = "panic"
+		}
+	}()
+	run := func(k int) (string, bool) {
+		switch ty {
+		case "u8":
+			t := uint8(k)
+			err := cbor.Unmarshal(b, &t)
+			return strconv.Itoa(int(t)), err == nil
+		case "u16":
+			t := uint16(k)
+			err := cbor.Unmarshal(b, &t)
+			return strconv.Itoa(int(t)), err == nil
+		case "u32":
+			t := uint32(k)
+			err := cbor.Unmarshal(b, &t)
+			return strconv.FormatUint(uint64(t), 10), err == nil
+		case "i64":
+			t := time.Duration(k)
+			err := cbor.Unmarshal(b, &t)
+			return strconv.FormatInt(int64(t), 10), err == nil
+		case "str":
+			t := strings.Repeat("S", k)
+			err := cbor.Unmarshal(b, &t)
+			return hexOrDash([]byte(t)), err == nil
+		case "bytes":
+			t := net.IP(make([]byte, k))
+			err := cbor.Unmarshal(b, &t)
+			return hexOrDash(t), err == nil
+		case "hash":
+			t := protocol.Hash{Algorithm: protocol.HashAlg(k), Value: make([]byte, k)}
+			err := cbor.Unmarshal(b, &t)
+			if err != nil {
+				// partially filled structs are never used by rv.go; the model reports none
+				return fmt.Sprintf("sentinel%d", k), false
+			}
+			return fmt.Sprintf("%d:%s", int64(t.Algorithm), hexOrDash(t.Value)), true
+		}
+		fatal("decProbe: type %s", ty)
+		return "", false
 	}
-	sort.Strings(cs)
-	if len(cs) > 3 {
-		cs = append(cs[:3], "…")
+	v1, ok1 := run(1)
+	v2, ok2 := run(2)
+	if ok1 != ok2 {
+		return "nondeterministic", nil
 	}
-	return fields + ":" + strings.Join(cs, ",")
+	stored := v1
+	if v1 != v2 {
+		stored = "-"
+	}
+	if ok1 {
+		return stored + " ok", nil
+	}
+	return stored + " err", nil
+}
+
+func shiftProbe(b []byte) (reply string) {
+	defer func() {
+		if p := recover(); p != nil {
+			reply = "panic"
+		}
+	}()
+	first, rest := cbor.ArrayShift(b)
+	if len(first) == 0 {
+		if !bytes.Equal(rest, b) {
+			return "fail-but-rest-differs " + hexOrDash(rest)
+		}
+		return "fail"
+	}
+	return "ok " + hexOrDash(first) + " " + hexOrDash(rest)
+}
+
+func (s *c20State) decoders() {
+	x := s.x
+	seen := map[string]bool{}
+	var all []string
+	add := func(h string) {
+		if !seen[h] {
+			seen[h] = true
+			all = append(all, h)
+		}
+	}
+	for _, sh := range c20Shapes {
+		add(sh.hex)
+	}
+	for _, v := range c20Vars {
+		for _, h := range c20Mid[v] {
+			add(h)
+		}
+	}
+	for _, h := range all {
+		b, _ := hex.DecodeString(h)
+		hx := hexOrDash(b)
+		for _, ty := range []string{"u8", "u16", "u32", "i64", "str", "bytes", "hash"} {
+			reply, pan := decProbe(ty, b)
+			x.r.Case("dec:"+ty+":"+h, true, "typed-decoder")
+			if pan != nil {
+				x.r.Violate(rep.Violation{Kind: "panic", Check: "C20.dec-" + ty, Signature: "C20.panic:unmarshal-" + ty + "-" + shape(h), Input: hx,
+					Impl: fmt.Sprint(pan), PropertyFails: true})
+				continue
+			}
+			x.c.add(pending{check: "C20.dec-" + ty, line: "rv.dec " + ty + " " + hx, impl: reply, input: ty + " " + hx})
+		}
+		x.r.Case("shift:"+h, true, "array-shift")
+		sp := shiftProbe(b)
+		x.c.add(pending{check: "C20.shift", line: "rv.shift " + hx, impl: sp, input: hx,
+			onMismatch: func(string) (bool, string, string) {
+				if sp == "panic" {
+					return true, "C20.panic:arrayshift-" + shape(h), "cbor.ArrayShift panics"
+				}
+				return false, "", ""
+			}})
+	}
 }
 
 type c20Pending struct {
@@ -503,6 +674,38 @@ func distinctVars(list []rvIn) bool {
 	return true
 }
 
+// propertyOracle decides on the implementation (and the reference interpreter) alone whether
+// the property fails on this input; used when model and implementation disagree.
+func (s *c20State) propertyOracle(dev bool, list []rvIn, impl string) (bool, string, string) {
+	text, pan := parseImpl(dev, list)
+	if pan != nil {
+		return true, "C20.panic:unclassified", fmt.Sprint(pan)
+	}
+	if hasOtherRoleMarker(dev, list) && text != zeroDirectiveText {
+		return true, "C20.other-role:nonzero", "marked for the other role but contributes fields"
+	}
+	used := map[int]bool{}
+	for k, in := range list {
+		if rej, typed := libRejects(in); typed && rej {
+			without := append(append([]rvIn(nil), list[:k]...), list[k+1:]...)
+			if t2, p2 := parseImpl(dev, without); p2 != nil || t2 != text {
+				used[k] = true
+			}
+		}
+	}
+	for k := range used {
+		return true, "C20.malformed-used:" + causeClass(list[k]), "a value the library's Unmarshal rejects influences the result"
+	}
+	spec, err := s.x.m.Ask("rv.spec " + listText(dev, list))
+	if err != nil {
+		fatal("model: %v", err)
+	}
+	if spec != impl {
+		return true, "C20.spec:" + sigFor(fieldsDiffer(impl, spec), list, used), "library result differs from the reference interpreter: " + trunc(spec, 300)
+	}
+	return false, "", "library result equals the reference interpreter; the model of the code is what differs"
+}
+
 // one evaluates one (view, list) case.
 func (s *c20State) one(dev bool, list []rvIn, class string) {
 	x := s.x
@@ -519,7 +722,7 @@ func (s *c20State) one(dev bool, list []rvIn, class string) {
 	}
 	x.r.Case(input, pan != nil || marker || text != zeroDirectiveText, class)
 	x.r.Distribution[fmt.Sprintf("len%d", len(list))]++
-	if len(input) < 200 {
+	if len(input) < 200 && len(list) >= 2 && text != zeroDirectiveText && x.r.Evaluations%20011 == 0 {
 		x.r.Sample(map[string]string{"input": input, "impl": trunc(impl, 300)}, 8)
 	}
 
@@ -536,7 +739,10 @@ func (s *c20State) one(dev bool, list []rvIn, class string) {
 			Impl: fmt.Sprint(pan), PropertyFails: true})
 		x.r.Distribution["impl-panic"]++
 		// correspondence: the model must show the same panic
-		x.c.add(pending{check: "C20.parse", line: "rv.parse " + input, impl: "panic:cbor.ArrayShift:empty", input: input})
+		x.c.add(pending{check: "C20.parse", line: "rv.parse " + input, impl: "panic:cbor.ArrayShift:empty", input: input,
+			onMismatch: func(string) (bool, string, string) {
+				return true, "C20.panic:" + culprit, "the library panics: " + fmt.Sprint(pan)
+			}})
 		return
 	}
 	if impl == "dropped" {
@@ -550,7 +756,8 @@ func (s *c20State) one(dev bool, list []rvIn, class string) {
 	}
 
 	// correspondence with the model of the code; oracle vs the reference interpreter
-	x.c.add(pending{check: "C20.parse", line: "rv.parse " + input, impl: impl, input: input})
+	x.c.add(pending{check: "C20.parse", line: "rv.parse " + input, impl: impl, input: input,
+		onMismatch: func(string) (bool, string, string) { return s.propertyOracle(dev, list, impl) }})
 
 	// (3) order of distinct instructions
 	if len(list) > 1 && distinctVars(list) {
@@ -579,7 +786,7 @@ func (s *c20State) one(dev bool, list []rvIn, class string) {
 				used = map[int]bool{}
 			}
 			used[k] = true
-			x.r.Violate(rep.Violation{Kind: "oracle", Check: "C20.malformed-ignored", Signature: "C20.malformed-used:" + instrClass(in),
+			x.r.Violate(rep.Violation{Kind: "oracle", Check: "C20.malformed-ignored", Signature: "C20.malformed-used:" + causeClass(in),
 				Input: input, Impl: impl, Detail: fmt.Sprintf("instruction %d (%s) has a value the library's Unmarshal rejects for its type, yet without it the result is: %s%v",
 					k, instrClass(in), trunc(t2, 300), p2), PropertyFails: true})
 		}
@@ -699,6 +906,8 @@ func c20(x *runCtx) {
 			}
 		}
 	}
+
+	s.decoders()
 
 	full, mid, core, tiny := fullPool(), poolOf(c20Mid), poolOf(c20Core), poolOf(c20Tiny)
 	x.r.Extra["palette_full"] = len(full)
